@@ -327,6 +327,9 @@ func cleanup(ctx, epoch)
 
 func NewEpoch(epochNum)
   requires WF(store) && epochNum < 4294967296
+  // the "if" direction, as reachability: an Alphabet-witnessed tick to a larger epoch can succeed, with and without an old list to drop
+  cover [C06] W(alphabet()) && epochNum > C(store) && epochNum > N(store) && cnt(store, "e") > 0
+  cover [C06] W(alphabet()) && epochNum == C(store) + 1 && epochNum <= N(store)
   // succeeds only if Alphabet-witnessed and the epoch grows
   ensures [C06] W(alphabet()) && epochNum > old(C(store))
   ensures [C06] C(store) == epochNum && store.get("snapshotBlock") == i2b(height)
